@@ -1,10 +1,12 @@
 import TomlVerif.Driver.C10
+import TomlVerif.Driver.C12
 
 open TomlVerif
 
 def dispatch (mode : String) (line : String) : String :=
   match mode with
   | "c10" => Driver.c10 line
+  | "c12" => Driver.c12 line
   | _ => "bad-mode"
 
 partial def loop (mode : String) (h : IO.FS.Stream) (out : IO.FS.Stream) : IO Unit := do
